@@ -14,7 +14,8 @@ def run(chk):
     dbg = vlib.harness_build()
     rel = vlib.harness_build(release=True)
     cl.model_check_stream(chk)
-    sc = cl.gen_scenarios(chk, "C10", thorough)
+    ppt, rcm = cl.calibrate(chk, dbg)
+    sc = cl.gen_scenarios(chk, "C10", thorough, ppt, rcm)
     # configuration extremes
     extremes = []
     for cfg in ({"pre": [9] * 12, "password": 999999, "max": 0}, {"pre": [], "password": 0, "max": 1000000}, {"pre": [1], "max": 3, "currency": 752},
@@ -25,7 +26,7 @@ def run(chk):
     total = 0
     for label, binary in (("debug", dbg), ("release", rel)):
         out = cl.run_scenarios(binary, sc + extremes, wd, "c10" + label)
-        outs, pfl = cl.validate_conn(chk, out, wd, "c10" + label, shard=200)
+        outs, pfl = cl.validate_conn(chk, out, wd, "c10" + label, shard=200, ppt=ppt, rcm=rcm)
         cl.report_conn(chk, outs, pfl, {"P10"}, {k: v + " (%s build)" % label for k, v in WHAT.items()})
         total += len(outs)
     chk.cov["traces_validated_against_impl"] = total
